@@ -6,7 +6,7 @@ agreement of statement and serializer, non-re-entrant stages launched once.  Not
 (IndexError/KeyError on data, anything inside rdflib)."""
 import ast
 from ..report import Ob, Floor
-from ..rules import sig, null, raises, enums, layout, choice, domain, direction, kinds, plumb
+from ..rules import sig, null, raises, enums, layout, choice, domain, direction, kinds, plumb, mergetable
 from .. import exceptions
 
 S = "shexer.shaper:Shaper."
@@ -53,6 +53,7 @@ def check(ctx, tier):
     obs += ctx.attempt(lambda c, cl: plumb.forwarding(c, cl, "remove_empty_shapes", lambda prm: prm == "remove_empty_shapes",
                                                       [c.flow.param("shexer.shaper:Shaper.__init__", "remove_empty_shapes")],
                                                       skip_funcs={"shexer.shaper:Shaper.__init__"})[0], ctx, "D-h", default=[])
+    obs += ctx.attempt(lambda c, cl: mergetable.invariants(c, cl, which=('no-crash',))[0], ctx, "D-i", default=[])
     exceptions.apply(obs)
     floors = [Floor("R-SIG call sites bound against a signature", len(o_calls), 850),
               Floor("R-SIG methods with self-attribute reads", len(o_self), 500),
